@@ -414,7 +414,7 @@ _RULE_ADDENDA_R5 = {
     'C17': " Round 5: the NBT form's click/hover event compounds must carry their mandatory keys; bare strings, lists and compounds are also decoded from the spelling of a foreign JSON encoder (solidus and non-ASCII escaped, surrogate pairs).",
     'C18': " Round 5: each signature case also verifies after a WriteTo/ReadFrom round trip of the PublicKey; C18ClientHandshake: bot.Client joins a harness server that sends a generated server id, the serverId of its join request must be Java's rendering of sha1(serverID+secret+publicKey).",
     'C19': ' Round 5: the bot is configured with a foreign account UUID in a third of the cases; the agreed UUID must be the offline UUID.',
-    'C20': ' Round 5: C20Bounded - 1500 (thorough 6000) rounds per case of 2..8 producers pushing once into a ChannelQueue with 1-2 free slots and no consumer: all return within 10 s and exactly the free slots are taken.',
+    'C20': ' Round 5: C20Bounded - 1500 (thorough 3000) rounds per case of 2..8 producers pushing once into a ChannelQueue with 1-2 free slots and no consumer: all return within 10 s and exactly the free slots are taken.',
 }
 _RULE_ADDENDA_R6 = {
     'C01': ' Round 6: named types EmbL and EmbR both embed EmbA; embedding both makes one struct type reachable twice at one depth (nobody owns its keys).',
@@ -439,7 +439,7 @@ _RULE_ADDENDA_R7 = {
     'C16': " Round 7: C16Frames writes through a connection whose writes fail ONCE at a generated offset (also exactly between two packets): the failed WritePacket reports an error; a later WritePacket either reports an error and writes nothing (a sticky error is allowed) or writes exactly its frame. Round 8: wrong passwords are also derived from the right one (repetition, cyclic extension, truncation, rotation, reversal, one bit, padding, swapped ends), in both roles.",
     'C18': " Round 7: C18Name looks a name up, then 1..70000 other names, then the name again. Round 8: the upper-, lower- and swapped-case variants of every name are different names with their own UUIDs.",
     'C19': " Round 7: resume mode - after HandleGame stopped with the failing handler's error it is called again (server hangs up after its last packet; delivered packets pairwise distinct, identified by content): the call log is the log up to the failure followed by the ordinary dispatch of everything after the failed packet's unit, the rest of the failed bundle either dropped or still dispatched. Round 8: one session in eight is a burst of 100..300 small packets each way.",
-    'C20': " Round 7 (own work): C20Sched - thread programs of push/pull/close, ONE operation released at a time by a generated schedule, whole-process quiescence awaited after each, every result compared step by step with the sequential FIFO-with-close model (parked consumers: exactly one is served per push, all are released by Close; bounded Push refuses iff full and nobody waits), nobody parked in Pull while the model holds an item or is closed, nobody parked in Push; TestC20SchedEnum: all schedules of 16 configurations (quick: first 1200 each). C20Fine - the same programs with a release at every sync.Mutex/RWMutex Lock (a goroutine woken by Signal/Broadcast stops before re-acquiring the lock): history linearizable (porcupine), no consumer parked while accepted > delivered or after Close, no Push/Close parked; TestC20FineEnum: all lock-granularity schedules of 16 configurations (quick: first 1500 each). C20FinePlayers - join/left/len/samples/check programs on a list of capacity 1..3 with more joiners than capacity under lock-granularity schedules: no observation and no final state exceeds the capacity. Round 8: C20Seq - one goroutine, push/pull runs of 1..600 items against the FIFO model on both queue kinds (backlogs of hundreds with items already pulled); player-list clients draw their profile UUIDs from 1..3 values in half of the cases; C20Pools sends ONE shared packet over 16..32 independent encrypted connections.",
+    'C20': " Round 7 (own work): C20Sched - thread programs of push/pull/close, ONE operation released at a time by a generated schedule, whole-process quiescence awaited after each, every result compared step by step with the sequential FIFO-with-close model (parked consumers: exactly one is served per push, all are released by Close; bounded Push refuses iff full and nobody waits), nobody parked in Pull while the model holds an item or is closed, nobody parked in Push; TestC20SchedEnum: all schedules of 16 configurations (quick: first 1200 each, thorough: first 30000). C20Fine - the same programs with a release at every sync.Mutex/RWMutex Lock (a goroutine woken by Signal/Broadcast stops before re-acquiring the lock): history linearizable (porcupine), no consumer parked while accepted > delivered or after Close, no Push/Close parked; TestC20FineEnum: all lock-granularity schedules of 16 configurations (quick: first 1500 each, thorough: first 30000). C20FinePlayers - join/left/len/samples/check programs on a list of capacity 1..3 with more joiners than capacity under lock-granularity schedules: no observation and no final state exceeds the capacity. Round 8: C20Seq - one goroutine, push/pull runs of 1..600 items against the FIFO model on both queue kinds (backlogs of hundreds with items already pulled); player-list clients draw their profile UUIDs from 1..3 values in half of the cases; C20Pools sends ONE shared packet over 16..32 independent encrypted connections.",
 }
 for _pid, _txt in _RULE_ADDENDA_R3.items():
     PROPS[_pid]["rule"] = PROPS[_pid].get("rule", "") + _txt
